@@ -32,7 +32,7 @@ ASSUMPTIONS = ["no faults are injected in this check (see C20)",
                "the `lock` field is excluded: _get_instance_state deliberately externalises it as False",
                "every compared instance has a session when GET /save-state is called"]
 FAULT_KINDS = []
-PROBES = ["second_save_load_cycle", "live_instance_diverged_from_saved", "save_state_after_eviction", "second_session_in_instance", "loaded_via_timeout", "loaded_via_load_state", "loaded_via_restart", "saved_via_save_state", "compressed_mode",
+PROBES = ["numeric_manager_name", "abandoned_stream", "second_save_load_cycle", "live_instance_diverged_from_saved", "save_state_after_eviction", "second_session_in_instance", "loaded_via_timeout", "loaded_via_load_state", "loaded_via_restart", "saved_via_save_state", "compressed_mode",
           "step_without_body", "step_with_empty_settings", "nonuniform_settings", "decimal_dt"]
 EXHAUSTIVE = {"quick": False, "thorough": False}
 
@@ -92,6 +92,11 @@ def generate(spec):
                 n = min(budget, rng.choice([1, 2, 3]))
                 ops.append({"op": "steps", "n": n, "settings": s if s is not None else {}})
                 budget -= n
+            elif r < 0.86 and len(ops) > 1 and budget > 2:
+                # a client that hangs up in the middle of a stream: the steps it was sent are taken and saved
+                ch = rng.choice([2, 3, 4, 6])
+                ops.append({"op": "stream_cut", "chunks": ch, "settings": s if s is not None else {}})
+                budget -= (ch + 1) // 2 + 1
             elif r < 0.9 and len(ops) > 1:
                 ops.append({"op": "stream", "settings": s if s is not None else {}})
                 budget = 0
@@ -121,11 +126,17 @@ def generate(spec):
                 for _ in range(rng.choice([1, 2]))]
     extra = {"more": more, "load_route2": rng.choice(["timeout", "load_state", "restart"]),
              "diverge": rng.choice([None, None, "end", "begin"])}
-    return {"property": PROPERTY, **extra,
+    # the scenario manager's name is data too: names that look like numbers ("2023") are legal
+    mgr_name = rng.choice(["smA", "smA", "smA", "2023", "1"])
+    case = {"property": PROPERTY, **extra,
             "config": {"adapter": adapter,
                        "model": {"template": template, "start": start, "stop": stop, "dt": dt,
                                  "managers": {"smA": {"base": {}, "alt": {"constants": {"constant": 2.0} if template == "T1" else {"drain": 1.0}}}}}},
             "instances": insts, "save_route": save_route, "load_route": load_route}
+    if mgr_name != "smA":
+        import json
+        case = json.loads(json.dumps(case).replace('"smA"', json.dumps(mgr_name)))
+    return case
 
 
 def rng_bit(case):
@@ -185,6 +196,9 @@ def execute(case):
     log = EventLog()
     res = RunResult()
     cfg = case["config"]
+    MGR = sorted(cfg["model"]["managers"])[0]
+    if MGR != "smA":
+        res.probe("numeric_manager_name")
     with ServerWorld({"model": cfg["model"], "adapter": cfg["adapter"], "threads": "serial"}, log, res) as w:
         w.boot()
         ids = []
@@ -203,7 +217,7 @@ def execute(case):
                 res.probe("second_session_in_instance")
             for n, o in enumerate(inst["ops"]):
                 if o["op"] == "begin":
-                    r = w.post("/%s/begin-session" % iid, {"scenario_managers": ["smA"], "scenarios": o["scenarios"],
+                    r = w.post("/%s/begin-session" % iid, {"scenario_managers": [MGR], "scenarios": o["scenarios"],
                                                            "equations": o["equations"], "settings": o["settings"]})
                 elif o["op"] == "step":
                     if o["settings"] is None:
@@ -215,6 +229,10 @@ def execute(case):
                 elif o["op"] == "steps":
                     r = w.post("/%s/run-steps" % iid, {"settings": o["settings"], "numberSteps": o["n"]})
                     res.sim_units += o["n"]
+                elif o["op"] == "stream_cut":
+                    r, cut, _ = w.stream("/%s/stream-steps" % iid, {"settings": o["settings"]}, chunks=o["chunks"])
+                    if cut:
+                        res.probe("abandoned_stream")
                 elif o["op"] == "stream":
                     r, _, _ = w.stream("/%s/stream-steps" % iid, {"settings": o["settings"]})
                 else:
@@ -265,7 +283,7 @@ def execute(case):
                     if case["diverge"] == "end":
                         w.post("/%s/end-session" % iid)
                     else:
-                        w.post("/%s/begin-session" % iid, {"scenario_managers": ["smA"], "scenarios": ["base", "alt"],
+                        w.post("/%s/begin-session" % iid, {"scenario_managers": [MGR], "scenarios": ["base", "alt"],
                                                            "equations": [T_first_eq(cfg)], "settings": {}})
             # ---- load
             if route == "timeout":
@@ -280,7 +298,7 @@ def execute(case):
                 if rng_bit(case):
                     rr = w.post("/start-instance", {"timeout": {"minutes": 5}})
                     try:
-                        w.post("/%s/begin-session" % rr.body["instance_uuid"], {"scenario_managers": ["smA"], "scenarios": ["base"],
+                        w.post("/%s/begin-session" % rr.body["instance_uuid"], {"scenario_managers": [MGR], "scenarios": ["base"],
                                                                                "equations": [T_first_eq(cfg)]})
                     except Exception:
                         pass
